@@ -211,10 +211,24 @@ def tasks(tier, prop="C08"):
             kw = randspec.make(i)
             spec = Spec(**kw)
             spec.label = label
-            have = [a for a in ("x", "u", "t", "p", "pc", "pcp", "v", "vc", "vcp", "T", "t0") if a != "u" or kw["controls"]]
+            have = [a for a in ("x", "u", "t", "p", "pc", "pcp", "v", "vc", "vcp", "T", "t0") if a != "u" or kw["controls"]] + (["w"] if kw.get("hoc") else [])
             refine_check(spec, [E("sr", 2, tuple(have))], (2,), label, poly=False)
         out.append(Task(label, fn, kind="bounded", bound=dict(generated=i, refine=[2]),
                         replay=dict(harness="task_probe", module="contracts.c08", task=label, tier=tier, tasks_kw=dict(prop=prop))))
+    if prop == "C08":
+        for i in range(90 if tier == "thorough" else 30):
+            kw = randspec.make(i)
+            if kw.get("discrete") or kw["grid"].get("kind") == "free" or kw["grid"].get("localize_T") or kw["grid"].get("localize_t0"):
+                continue
+            label = "C08/R%03d-%s-sampler" % (i, kw["method"])
+            def fn(i=i, label=label):
+                kw = randspec.make(i)
+                spec = Spec(**kw)
+                spec.label = label
+                have = [a for a in ("x", "u", "t") if a != "u" or kw["controls"]] + (["w"] if kw.get("hoc") else [])      # rockit's sampler takes expressions of x, u, t only
+                sampler_check(spec, [E("sq", 2, tuple(have))], label)
+            out.append(Task(label, fn, kind="bounded", bound=dict(generated=i, query_time="symbolic within each integrator step"),
+                            replay=dict(harness="task_probe", module="contracts.c08", task=label, tier=tier)))
     if prop == "C08":
         # Gauss-Legendre collocation: numeric horizon (so that the step length cancels in normal form) and tolerance
         for degree in (2, 3) if tier != "thorough" else (1, 2, 3, 4):
